@@ -117,7 +117,8 @@ def top(reason: str) -> Term:
 OPAQUE_SEEN: Dict[str, Tuple[int, str]] = {}
 # Constructs met by the interpreter that make its results unreliable in a specific, nameable way:
 #   CACHED  - a repository function with a cache decorator was inlined (the interpreter does not model memoisation)
-#   ONESHOT - a module-level one-shot iterator (map/filter/zip/generator/iter/reversed object) is consumed in a function
+#   ONESHOT - a module-level or class-level one-shot iterator (map/filter/zip/generator/iter/reversed object) is consumed in a function
+#   SHARED  - a container created in a class body and mutated in place through instances is read (state shared by all instances)
 HAZARDS: Dict[Tuple[str, str], str] = {}
 # markers that occur on the unchanged tree and were read: (kind, name) -> why harmless
 OPAQUE_BENIGN = {
@@ -158,8 +159,12 @@ def opaque_markers(v: Any, acc: set, seen: Optional[set] = None, depth: int = 0)
         if len(v) == 3 and v[0] == "modvar" and v[2] != "logger":
             acc.add("MODVAR:" + str(v[2]))   # a module-level value the analyser could not evaluate
             return
-        if len(v) == 3 and v[0] in ("item", "item?") and isinstance(v[1], tuple) and v[1][:1] and v[1][0] in ("mapobj", "filterobj", "lazymap", "top"):
+        if len(v) == 3 and v[0] in ("item", "item?") and isinstance(v[1], tuple) and v[1][:1] and v[1][0] in ("mapobj", "filterobj", "lazymap", "top") and not (v[1][0] == "mapobj" and len(v[1]) == 4):
             acc.add("ITEM-OF:" + str(v[1][0]))     # an element of a lazy / unevaluated iterable the analyser could not produce
+        if len(v) == 3 and v[0] in ("item", "item?") and isinstance(v[1], tuple) and v[1][:1] == ("sym",) and isinstance(v[1][1], str) and v[1][1].startswith(("builtins.zip(", "builtins.enumerate(", "builtins.reversed(", "itertools.")):
+            acc.add("ITEM-OF:" + v[1][1].split("(")[0])   # (the element symbol of an un-evaluated zip / enumerate / itertools object)
+        if len(v) == 3 and v[0] in ("item", "item?") and isinstance(v[1], tuple) and v[1][:2] in (("app", "builtins.zip"), ("app", "builtins.enumerate"), ("app", "zip"), ("app", "enumerate")):
+            acc.add("ITEM-OF:" + str(v[1][1]))
         if len(v) == 3 and v[0] == "extmeth" and isinstance(v[2], str):
             # a field of a modelled pure value (struct_time.tm_hour, ...) is a projection, not an unknown
             x = v[1]
